@@ -68,13 +68,15 @@ Section Walk.
     cbn [wpp rfail rret].
 
   (** * [qr_new] *)
-  Lemma wpp_qr_new fo proto off :
-    wpp spec (qr_new fo proto)
+  Lemma wpp_qr_new fo recs proto off :
+    wpp spec (qr_new fo recs proto)
         (fun q _ => q = mkQr proto (map (fun _ => bsr_new) proto) (map (fun _ => []) proto)) off.
   Proof.
     unfold qr_new. apply wpp_seek_then. intros o1 _.
     eapply wpp_bind_with; [apply wpp_true|]. intros h o2 _.
-    apply wpp_seek_then. intros o3 _. cbn [wpp rret]. reflexivity.
+    destruct (0 <? recs).
+    - apply wpp_seek_then. intros o3 _. cbn [wpp rret]. reflexivity.
+    - cbn [rret rbind wpp]. reflexivity.
   Qed.
 
   (** * Packet headers: at least four bytes, ending inside the file *)
@@ -168,13 +170,12 @@ Section Walk.
       intros sizes o2 (S1 & S2 & S3).
       eapply wpp_bind_with; [apply wpp_read_streams; exact S2|].
       intros streams o3 (T1 & T2 & T3 & T4).
-      destruct (min_queue_size (q_proto q) streams (q_queues q) None) as [[m|]|k|] eqn:Em;
-        cbn [rlift rbind]; try exact I.
-      destruct (parse_streams (q_proto q) streams (q_queues q) m) as [[ss qs]|k|] eqn:Ep;
+      destruct (negb (has_sized (q_proto q))); [exact I|].
+      destruct (parse_streams (q_proto q) streams (q_queues q)) as [[ss qs]|k|] eqn:Ep;
         cbn [rlift rbind wpp rret]; try exact I.
       split; [lia|]. split; [exact T2|].
       intros [L1 L2].
-      apply mqs_bound in Em. apply parse_streams_pot in Ep. destruct Ep as (P1 & P2 & P3).
+      apply parse_streams_pot in Ep. destruct Ep as (P1 & P2 & P3).
       assert (L3 : length streams = length (q_proto q)) by (rewrite T3; lia).
       unfold qshape. cbn [q_proto q_streams q_queues].
       split; [apply P3; assumption|]. split; [reflexivity|].
@@ -184,9 +185,8 @@ Section Walk.
       set (SPm := sized_pot (q_proto q) streams (q_queues q)) in *.
       set (SP0 := sized_pot (q_proto q) (q_streams q) (q_queues q)) in *.
       clearbody SPn SPm SP0.
-      assert (HB : m <= 8 * (o3 - off0)) by lia.
       split; [lia|]. split; [lia|].
-      apply P2; [exact HB|]. eapply zero_bounded_mono; [|exact B3]. lia.
+      apply P2. exact B3.
     - destruct (pl <? IGNORED_HEADER_SIZE); [exact I|].
       set (n := pl - IGNORED_HEADER_SIZE). clearbody n.
       apply wpp_rd_then. intros l o2 _ Ho Hls. cbn [wpp rret].
